@@ -789,6 +789,28 @@ impl Gen {
         }
     }
 
+    /// array of small objects over the keys a/b whose key-first and value-first orders differ
+    /// (jq orders objects by their sorted key lists first, then by the values in key order)
+    pub fn obj_order_array(&mut self) -> V {
+        let n = self.r.range(2, 4) as usize;
+        V::Arr(
+            (0..n)
+                .map(|_| {
+                    let mut kv = vec![];
+                    for k in ["a", "b", "c"] {
+                        if self.r.chance(3, 5) {
+                            kv.push((k.to_string(), V::int(self.r.below(3) as i64)));
+                        }
+                    }
+                    if self.r.coin() {
+                        kv.reverse();
+                    }
+                    V::Obj(kv)
+                })
+                .collect(),
+        )
+    }
+
     /// entries-shaped array for from_entries / with_entries
     pub fn entries(&mut self) -> V {
         let n = self.r.below(4) as usize;
@@ -966,16 +988,16 @@ impl Gen {
                 self.labels.pop();
                 (Ast::Label(l, b(bd)), s)
             }
-            60..=63 => {
+            60..=65 => {
                 let g = self.multi(d1, sh);
-                match self.r.below(4) {
-                    0 => (call("limit", vec![lit_i(self.r.below(4) as i64), g]), Sh::Any),
+                match self.r.below(6) {
+                    0 | 4 | 5 => (call("limit", vec![lit_i(*self.r.pick(&[0, 0, 1, 2, 3, -1])), g]), Sh::Any),
                     1 => (call("first", vec![g]), Sh::Any),
                     2 => (call("last", vec![g]), Sh::Any),
                     _ => (call("isempty", vec![g]), Sh::Bool),
                 }
             }
-            64..=66 => (self.cond(d, sh), Sh::Bool),
+            66 => (self.cond(d, sh), Sh::Bool),
             _ => self.by_shape(d, sh_eff),
         }
     }
@@ -1175,6 +1197,9 @@ impl Gen {
         let sh = if self.r.chance(1, 6) { Sh::Any } else { sh };
         if sh == Sh::Arr && self.r.chance(1, 8) {
             return self.entries();
+        }
+        if sh == Sh::Arr && self.r.chance(1, 7) {
+            return self.obj_order_array();
         }
         let d = self.r.range(1, 3) as u32;
         self.value(d, sh, dups)
